@@ -378,7 +378,8 @@ def compare (op : BinOp) (a b : Datum) : M Bool := do
   | none, none =>
     if rel then pure (numCmp op (← a.toNum) (← b.toNum)) else eqScalar op a b
   | sa, sb =>
-    if a.isBool || b.isBool then
+    if sa = some [] || sb = some [] then pure false     -- an empty set: false for every operator
+    else if a.isBool || b.isBool then
       -- boolean vs node-set: the set is converted as a whole
       if rel then pure (numCmp op (← (Datum.bool (← a.toBool)).toNum) (← (Datum.bool (← b.toBool)).toNum))
       else eqScalar op (.bool (← a.toBool)) (.bool (← b.toBool))
